@@ -8,7 +8,7 @@ looked up at call time. Under the fork start method the harness replaces
 workers in dispatch order and follows a plan inherited through fork:
 
   plan[i] = {'delay': seconds}                       sleep before running the target
-  plan[i] = {'fault': 'kill'|'exit'|'raise',
+  plan[i] = {'fault': 'kill'|'term'|'exit'|'raise',
              'point': 'before'|'mid'|'after', 'at': k}
 
 'mid' fires at the k-th Python call event inside the package (sys.setprofile),
@@ -57,6 +57,13 @@ class ControlledProcess(_ORIG):
             if f == 'kill':
                 os.kill(os.getpid(), signal.SIGKILL)
                 time.sleep(5)
+            if f == 'term':
+                # a polite termination request (as a batch scheduler or `kill` sends): a worker that installed a
+                # handler and carries on has not failed - then the fault counts as not delivered ('survived')
+                os.kill(os.getpid(), signal.SIGTERM)
+                time.sleep(5)
+                mark(f'survived_{i}')
+                return
             if f == 'exit':
                 os._exit(3)
             raise RuntimeError('injected worker failure')
@@ -113,10 +120,16 @@ def read_markers(marker_dir):
                counts={i: n call events})"""
     d = pathlib.Path(marker_dir)
     faults, done, counts = set(), [], {}
+    survived = set()
+    for p in d.iterdir():
+        nm = p.name
+        if nm.startswith('survived_'):
+            survived.add(int(nm[9:]))
     for p in d.iterdir():
         nm = p.name
         if nm.startswith('fault_'):
-            faults.add(int(nm[6:]))
+            if int(nm[6:]) not in survived:
+                faults.add(int(nm[6:]))
         elif nm.startswith('done_'):
             done.append((int(p.read_text() or 0), int(nm[5:])))
         elif nm.startswith('count_'):
